@@ -506,7 +506,7 @@ impl Prop for C12 {
     const PART: &'static str = "constructors";
     const RULE: &'static str = "lattice (exhaustive): bound pairs (lo,hi) in V x V, V = {-inf,-1e308,-4,-pi-ulp,-pi,-pi+ulp,-1,-0,0,1e-300,1,pi-ulp,pi,pi+ulp,4,1e308,inf,NaN}, for SO2, per dimension for RV (dimension 0-3 x bounds length 0-4 x None) and in each slot of SE2/SE3; SO3 radius over V with unit / negated / NaN centres; SO2State/SE2State::new and SO3State::normalise over special magnitudes (0, 1e-300..1e300, multiples of pi +-ulp; zero, 1e-200, 1e-10, 1e-9+-, unit, 1e150, 1e200, mixed quaternions); plus random fill-in. Oracle: reference well-formedness predicate in both directions (ill-formed => documented error with the right payload; well-formed and in range => accepted, stored verbatim), and every accepted space is exercised (sample, enforce, satisfies, resolution) under catch_unwind. Non-trivial = an argument tuple with a non-finite, inverted, equal, out-of-range or wrong-length component (or an angle outside [-pi,pi) / a non-unit quaternion).";
     fn random_cases(tier: Tier) -> usize {
-        tier.pick(500_000, 2_000_000)
+        tier.pick(2_000_000, 8_000_000)
     }
     fn gen(ch: &mut Ch, _tier: Tier) -> CtorCase {
         let v = lattice_v();
